@@ -8,7 +8,7 @@
                                                restore paths: except AssertionError
                                                -> critical(3), except Exception ->
                                                re-raise)
-                                       390-430 save_to_file, write_output_document
+                                       390-425 write_output_document
                                                (JSON text rendered before any file
                                                is touched)
      yamlpath/commands/yaml_merge.py   256-279 validateargs (--output / --overwrite / --backup)
@@ -162,7 +162,7 @@ Fixpoint run_until_fault (f : option fault) (k : nat) (l : list op) (s : fs) : r
 (* The save sequences.                                                     *)
 
 (* `if exists(backup_file): remove(backup_file)`, then copy2(file, backup_file)
-   (yaml_set.py:409-415, yaml_merge.py:338-345, eyaml_rotate_keys.py:189-194).
+   (yaml_set.py:402-408, yaml_merge.py:338-345, eyaml_rotate_keys.py:189-194).
    Nothing before these calls changes the .bak, so the answer of exists() is
    the state the run started in. *)
 Definition backup_ops (s : fs) : list op :=
